@@ -31,6 +31,9 @@ package netstate
 //@   ensures E3 [C19]: lockGet(ghost.lockDepth, fieldaddr(w, "mu")) == 0
 //@   ensures E6 [C19]: wfA(w.m)
 //@   ensures E7: old(wfB(w.m)) ==> wfB(w.m)
+//@   ensures E8a [C19]: forall(k, "Int", k != changes && old(has(w.m, iface) && has(w.m[iface], k)) ==> has(w.m[iface], k) && w.m[iface][k] == old(w.m[iface][k]))
+//@   ensures E8b [C19]: old(has(w.m, iface) && has(w.m[iface], changes)) ==> len(w.m[iface][changes]) == old(len(w.m[iface][changes])) + 1 && forall(j, 0, old(len(w.m[iface][changes])), w.m[iface][changes][j] == old(w.m[iface][changes][j]))
+//@   ensures E9 [C19]: forall(i, "Int", i != iface && old(has(w.m, i)) ==> has(w.m, i) && w.m[i] == old(w.m[i]))
 //@   opt safety [C19]
 
 //@ func (*Watcher).notify
